@@ -23,14 +23,22 @@ LEVEL = 'exploration'
 RULE = ('channel matrix: every DTML access channel (name lookup in client/client tuple/with/with only/'
         'let/if/call/return/raise/try, expression attribute/item/iteration/getattr/hasattr/namespace, '
         'dtml-in items with and without skip_unauthorized and batching, sequence-var/first/last/'
-        'statistics/sort/sort_expr, fmt=method, url, tree branches/branches_expr/sort/id/url/items, '
-        'entity and %()s forms) x kind {public, guard-refused, _private} x configuration {class hooks + '
-        'policy, RestrictedDTML + policy, no guards (for the _ clause)} x seeded object graphs '
-        '(sequence length, position of the refused item, container type, client tuple, numbers); '
-        'every case is rendered under three assignments of the refused values; a case is non-trivial '
-        'when the targeted datum was reached (guard decision, raw read or leak); distinct = '
-        '(channel, kind, configuration, graph seed)')
+        'statistics/sort/sort_expr, fmt=method (instance and class-defined), url, tree branches/'
+        'branches_expr/sort/id/url/items, helper templates of a guarded / RestrictedDTML / unguarded class '
+        'found by name or called as helper(ob, _), helper((a, ob), _), helper(None, _), helper(ob, _, kw=..), '
+        'entity and %()s forms) x kind {public, guard-refused, _private, alt = decision alternating per '
+        'object and flipped between two renders of the same compiled template} x configuration {class hooks '
+        '+ policy, RestrictedDTML + policy, no guards (for the _ clause)} x position pattern of the refused '
+        'items {single, first, last, two adjacent, all, alternating} for the item channels (dtml-in, tree '
+        'root and nested level, sort/statistics) x seeded object graphs (sequence length, seeded position, '
+        'container type, client tuple, tree width, numbers); every case is rendered under three assignments '
+        'of the refused values (alt: under both refusal tables, interleaved); a case is non-trivial when the '
+        'targeted datum was reached (guard decision, raw read or leak); distinct = (channel, kind, '
+        'configuration, pattern, graph seed)')
 ASSUMPTIONS = [
+    'a helper template is only required to honour the CALLER\'s guard when it is given the namespace '
+    '(found by name or called with `_`); helper(ob) without the namespace is a new top-level rendering '
+    'under the helper class\'s own guards and is not asserted',
     'mapping-mode namespaces (with mapping / in mapping key lookup, sort and statistics over mapping '
     'items) are keyed lookups the statement does not list: rendered and tabulated, never asserted',
     'unrestricted (guard-less) expressions may name _attributes (the statement only restricts '
@@ -43,7 +51,7 @@ ASSUMPTIONS = [
 ]
 SHARD_TIMEOUT = {'quick': 600, 'thorough': 3000}
 NSHARDS = {'quick': 16, 'thorough': 16}
-VARIANTS = {'quick': 4, 'thorough': 120}
+VARIANTS = {'quick': 4, 'thorough': 100}
 GUARDED = ('hook', 'zope')
 
 STATS = ('total', 'count', 'min', 'max', 'median', 'mean', 'variance', 'variance-n',
@@ -54,7 +62,7 @@ STATS = ('total', 'count', 'min', 'max', 'median', 'mean', 'variance', 'variance
 class Ch:
     def __init__(self, id, fam, src, client=False, kinds=('pub', 'den', 'prv'), expect=(),
                  flavour='HTML', extra=None, us=False, info=False, cfgs=GUARDED + ('none',),
-                 needs=None, entity=False, raises=False):
+                 needs=None, entity=False, raises=False, helper=None):
         self.id = id
         self.fam = fam
         self.src = src
@@ -69,6 +77,17 @@ class Ch:
         self.needs = needs
         self.entity = entity
         self.raises = raises          # the public variant is expected to raise (dtml-raise)
+        self.helper = helper          # (helper class cfg, flavour, helper source): ns['helper']
+        # 'alt' kind: the decision for one name alternates per object and flips between two renders
+        # of the same compiled template (guarded configurations only)
+        if ('den' in kinds and 'pub' in kinds and not info and not self.positional()
+                and any(('@%s@' % f) in src + (helper[2] if helper else '') for f in U.FAMS)):
+            self.kinds = tuple(kinds) + ('alt',)
+
+    def positional(self):
+        """Channels about refused ITEMS: rendered for every position pattern of the refused ones."""
+        src = self.src + (self.helper[2] if self.helper else '')
+        return any(t in src for t in ('@Q@', '@PQ@', '@MQ@', '@B@'))
 
 
 def P(tag, name):
@@ -229,13 +248,13 @@ def channels():
            kinds=('pub', 'den'), expect=['[obj(i0):0]'], cfgs=X))
     add(Ch('in.item.index-item.prev', 'seqvar-item',
            '<dtml-in @PQ@ size=1 start=@pa@ overlap=0>[<dtml-var previous-sequence-start-item>]</dtml-in>',
-           kinds=('pub', 'den'), cfgs=X, needs=lambda p: p['p'] + 2 <= p['n']))
+           kinds=('pub', 'den'), cfgs=X, needs=lambda p: p['hi'] + 2 <= p['n']))
     add(Ch('in.item.index-item.next', 'seqvar-item',
            '<dtml-in @PQ@ size=1 start=@pb@ overlap=0>[<dtml-var next-sequence-start-item>]</dtml-in>',
-           kinds=('pub', 'den'), cfgs=X, needs=lambda p: p['p'] >= 1))
+           kinds=('pub', 'den'), cfgs=X, needs=lambda p: p['lo'] >= 1))
     add(Ch('in.item.index-item.step', 'seqvar-item',
            '<dtml-in @PQ@ size=2 start=@pn@ skip_unauthorized>[<dtml-var sequence-step-start-item>]</dtml-in>',
-           kinds=('pub', 'den'), cfgs=X, needs=lambda p: p['p'] + 2 <= p['n']))
+           kinds=('pub', 'den'), cfgs=X, needs=lambda p: p['lo'] + 2 <= p['n']))
     # ---- item body name lookup
     add(Ch('in.body.name', 'name', '<dtml-in seq>[<dtml-var @s@>]</dtml-in>', expect=[P('i0', 's_pub')],
            entity=True))
@@ -274,7 +293,7 @@ def channels():
            expect=[P('m0', 's_pub')], info=True))
     add(Ch('in.seqvar.refused-item', 'seqvar',
            '<dtml-in @Q@ size=1 start=@pa@ overlap=0>[<dtml-var previous-sequence-start-var-s_pub>]</dtml-in>',
-           kinds=('pub', 'den'), cfgs=X, needs=lambda p: p['p'] + 2 <= p['n']))
+           kinds=('pub', 'den'), cfgs=X, needs=lambda p: p['hi'] + 2 <= p['n']))
     for w_ in ('first', 'last'):
         add(Ch('in.%s' % w_, 'first-last', '<dtml-in seq>[<dtml-var %s-@r@>]</dtml-in>' % w_))
         add(Ch('in.%s.if' % w_, 'first-last',
@@ -367,6 +386,65 @@ def channels():
     add(Ch('tree.item.skip.cookie', 'tree-item',
            '<dtml-tree root branches=@B@ skip_unauthorized>[<dtml-var tag>]</dtml-tree>',
            kinds=('pub', 'den'), extra=T1, expect=['[t0]'], cfgs=X))
+    # ---- methods defined by the class (per-object decisions on one class)
+    add(Ch('var.fmt.class-method', 'fmt', '[<dtml-var o fmt=@cm@>]', expect=[P('o', 'cm_pub()')]))
+    add(Ch('var.fmt.class-method.items', 'fmt', '<dtml-in seq>[<dtml-var sequence-item fmt=@cm@>]</dtml-in>',
+           expect=[P('i0', 'cm_pub()'), P('i1', 'cm_pub()')]))
+    add(Ch('var.fmt.class-method.null', 'fmt', '<dtml-in seq>[<dtml-var sequence-item fmt=@cm@ null=N>]</dtml-in>',
+           expect=[P('i1', 'cm_pub()')]))
+    add(Ch('name.class-method.items', 'name', '<dtml-in seq>[<dtml-var @cm@>]</dtml-in>',
+           expect=[P('i0', 'cm_pub()'), P('i1', 'cm_pub()')]))
+    add(Ch('expr.class-method.items', 'expr', '<dtml-in seq>[<dtml-var "_[\'sequence-item\'].@cm@()">]</dtml-in>',
+           expect=[P('i1', 'cm_pub()')], us=True, cfgs=X))
+    add(Ch('expr.two-objects', 'expr', '[<dtml-var "seq[0].@s@">][<dtml-var "seq[1].@s@">][<dtml-var "seq[2].@s@">]',
+           expect=[P('i0', 's_pub'), P('i1', 's_pub')], us=True, cfgs=X))
+    add(Ch('expr.getattr.two-objects', 'expr',
+           '[<dtml-var "_.getattr(seq[0], \'@s@\')">][<dtml-var "_.getattr(seq[1], \'@s@\')">]',
+           expect=[P('i0', 's_pub'), P('i1', 's_pub')], cfgs=X))
+    add(Ch('name.with.two-objects', 'name',
+           '<dtml-with "seq[0]">[<dtml-var @s@>]</dtml-with><dtml-with "seq[1]">[<dtml-var @s@>]</dtml-with>',
+           expect=[P('i0', 's_pub'), P('i1', 's_pub')]))
+    # ---- sub-template / helper template invoked while rendering (the namespace carries the guard)
+    for hcfg, flav in (('hook', 'HTML'), ('zope', 'HTML'), ('none', 'HTML'), ('none', 'String')):
+        hid = '%s-%s' % (hcfg, flav.lower())
+        body = '{<dtml-var @s@>}' if flav == 'HTML' else '{%(@s@)s}'
+        bodyz = '{<dtml-var @z@>}' if flav == 'HTML' else '{%(@z@)s}'
+        H = (hcfg, flav, body)
+        add(Ch('helper.%s.by-name.with' % hid, 'helper', '<dtml-with o>[<dtml-var helper>]</dtml-with>',
+               helper=H, expect=['{' + P('o', 's_pub')]))
+        add(Ch('helper.%s.by-name.client' % hid, 'helper', '[<dtml-var helper>]', client=True,
+               helper=H, expect=['{' + P('c', 's_pub')]))
+        add(Ch('helper.%s.call' % hid, 'helper', '[<dtml-var expr="helper(o, _)">]',
+               helper=H, expect=['{' + P('o', 's_pub')]))
+        add(Ch('helper.%s.call.tuple-last' % hid, 'helper', '[<dtml-var expr="helper((oz, o), _)">]',
+               helper=H, expect=['{' + P('o', 's_pub')]))
+        add(Ch('helper.%s.call.tuple-first' % hid, 'helper', '[<dtml-var expr="helper((oz, o), _)">]',
+               helper=(hcfg, flav, bodyz), expect=['{' + P('oz', 'z_pub')]))
+        add(Ch('helper.%s.call.none-in-with' % hid, 'helper',
+               '<dtml-with o>[<dtml-var expr="helper(None, _)">]</dtml-with>',
+               helper=H, expect=['{' + P('o', 's_pub')]))
+        add(Ch('helper.%s.call.kw' % hid, 'helper', '[<dtml-var expr="helper(o, _, extra=1)">]',
+               helper=H, expect=['{' + P('o', 's_pub')]))
+        add(Ch('helper.%s.call.loop' % hid, 'helper',
+               '<dtml-in seq>[<dtml-var expr="helper(_[\'sequence-item\'], _)">]</dtml-in>',
+               helper=H, expect=['{' + P('i0', 's_pub'), '{' + P('i1', 's_pub')]))
+        add(Ch('helper.%s.call.let' % hid, 'helper', '<dtml-let v="helper(o, _)">[<dtml-var v>]</dtml-let>',
+               helper=H, expect=['{' + P('o', 's_pub')]))
+        if flav == 'HTML':
+            add(Ch('helper.%s.call.with-body' % hid, 'helper', '[<dtml-var expr="helper(o, _)">]',
+                   helper=(hcfg, flav, '<dtml-with k_pub>{<dtml-var @s@>}</dtml-with>'),
+                   expect=['{' + P('o.k_pub', 's_pub')]))
+            add(Ch('helper.%s.call.in-body' % hid, 'helper', '[<dtml-var expr="helper(o, _)">]',
+                   helper=(hcfg, flav, '<dtml-in l_pub>{<dtml-var @s@>}</dtml-in>'),
+                   expect=['{' + P('o.l_pub0', 's_pub')]))
+            add(Ch('helper.%s.call.expr-body' % hid, 'helper', '[<dtml-var expr="helper(None, _)">]',
+                   helper=(hcfg, flav, '{<dtml-var "o.@s@">}'), expect=['{' + P('o', 's_pub')],
+                   us=True, cfgs=X))
+            add(Ch('helper.%s.call.fmt-body' % hid, 'fmt', '[<dtml-var expr="helper(None, _)">]',
+                   helper=(hcfg, flav, '{<dtml-var o fmt=@cm@>}'), expect=['{' + P('o', 'cm_pub()')]))
+            add(Ch('helper.%s.call.items' % hid, 'helper-item', '[<dtml-var expr="helper(None, _)">]',
+                   helper=(hcfg, flav, '<dtml-in @Q@ skip_unauthorized>{<dtml-var tag>}</dtml-in>'),
+                   kinds=('pub', 'den'), expect=['{i0}'], cfgs=X))
     # entity twins of the var channels
     out = []
     for ch in c:
@@ -375,7 +453,7 @@ def channels():
             src = re.sub(r'<dtml-var ([^ >"]+)>', r'&dtml-\1;', ch.src)
             out.append(Ch(ch.id + '/entity', ch.fam, src, client=ch.client, kinds=ch.kinds,
                           expect=ch.expect, flavour=ch.flavour, extra=ch.extra, us=ch.us, info=ch.info,
-                          cfgs=ch.cfgs, needs=ch.needs))
+                          cfgs=ch.cfgs, needs=ch.needs, helper=ch.helper))
     ids = [ch.id for ch in out]
     assert len(ids) == len(set(ids)), 'duplicate channel id'
     return out
@@ -398,7 +476,11 @@ def combos(ch):
         for kind in ch.kinds:
             if cfg == 'none' and kind != 'prv':
                 continue
-            yield kind, cfg
+            if kind == 'den' and ch.positional():
+                for pat in U.PATTERNS:
+                    yield kind, cfg, pat
+            else:
+                yield kind, cfg, None
 
 
 def plan(tier, seed):
@@ -414,15 +496,15 @@ def subst(src, kind, p):
     rep = {'@Q@': 'dseq' if den else 'seq', '@PQ@': 'dpseq' if den else 'pseq',
            '@MQ@': 'dmseq' if den else 'mseq', '@U@': 'ou_den' if den else 'ou_pub',
            '@K@': 'key_den' if den else 'key_pub', '@B@': 'b_mix' if den else 'b_pub',
-           '@ix@': str(p['p'] if den else 0), '@pa@': str(p['p'] + 2), '@pb@': str(p['p']),
-           '@pn@': str(p['p'] + 1), '@n1@': str(p['n'])}
+           '@ix@': str(p['lo'] if den else 0), '@pa@': str(p['hi'] + 2), '@pb@': str(p['lo']),
+           '@pn@': str(p['lo'] + 1), '@n1@': str(p['n'])}
     for k, v in rep.items():
         out = out.replace(k, v)
     return out
 
 
 TEMPLATES = {}
-NAME_RE = re.compile(r'\b(o|seq|pseq|tseq|dseq|dpseq|mseq|dmseq|mp|md_map|ou_pub|ou_den|root)\b')
+NAME_RE = re.compile(r'\b(o|oz|seq|pseq|tseq|dseq|dpseq|mseq|dmseq|mp|md_map|ou_pub|ou_den|root)\b')
 
 
 def get_template(cfg, flavour, src):
@@ -435,12 +517,13 @@ def get_template(cfg, flavour, src):
     return t
 
 
-def render(ch, kind, cfg, p, src, assign):
+def render(ch, kind, cfg, p, src, assign, flip=0):
     w = U.World(cfg)
-    need = set(NAME_RE.findall(src))
+    hsrc = subst(ch.helper[2], kind, p) if ch.helper else ''
+    need = set(NAME_RE.findall(src + ' ' + hsrc))
     if ch.client:
         need.add('client')
-    g = U.Graph(cfg, assign, p, w, need)
+    g = U.Graph(cfg, assign, p, w, need, flip=flip)
     ns = dict(g.ns)
     ns.update(ch.extra)
     if ch.client == 'tuple' or (ch.client and p.get('client') == 'tuple'):
@@ -449,6 +532,18 @@ def render(ch, kind, cfg, p, src, assign):
         client = g.c
     else:
         client = None
+    if ch.helper:
+        helper = ns['helper'] = get_template(ch.helper[0], ch.helper[1], hsrc)
+        if ch.helper[0] == 'none':
+            # the same compiled helper is first rendered on its own (top level, no guards: plain
+            # access is legitimate there) and only then called by the guarded template
+            U.CURRENT[0] = U.World('none')
+            try:
+                helper(ns.get('o') or g.c, None, **ns)
+            except Exception:
+                pass
+            finally:
+                U.CURRENT[0] = None
     out = exc = None
     U.CURRENT[0] = w
     try:
@@ -605,17 +700,31 @@ def classify(ch, kind, cfg, results):
     return None, sorted(unknown | set(('known', k) for k in keys))
 
 
-def run_case(ctx, ch, kind, cfg, gseed, record=True):
-    p = U.seeded_params(gseed)
+def case_params(gseed, pat):
+    p = dict(U.seeded_params(gseed))
+    p['pat'] = pat or 'single'
+    deny = U.deny_indices(p['pat'], p['n'], p['p'])
+    p['lo'], p['hi'] = min(deny), max(deny)
+    return p
+
+
+def run_case(ctx, ch, kind, cfg, gseed, pat=None, record=True):
+    p = case_params(gseed, pat)
     if ch.needs is not None and not ch.needs(p):
         ctx.count('cases:not-applicable-for-graph')
         return
     src = subst(ch.src, kind, p)
-    case = {'ch': ch.id, 'kind': kind, 'cfg': cfg, 'gseed': gseed, 'src': src, 'params': p}
+    case = {'ch': ch.id, 'kind': kind, 'cfg': cfg, 'gseed': gseed, 'pat': pat, 'src': src, 'params': p}
+    if ch.helper:
+        case['helper'] = [ch.helper[0], ch.helper[1], subst(ch.helper[2], kind, p)]
+    # 'alt': the SAME compiled template is rendered alternately under two refusal tables (flip 0/1:
+    # which half of the objects refuses the name); within each table the assignments a/b/c
+    flips = (0, 1) if kind == 'alt' else (0,)
     res = {}
     for assign in ('a', 'b', 'c'):
-        res[assign] = render(ch, kind, cfg, p, src, assign)
-    ctx.count('renders', 3)
+        for flip in flips:
+            res[(flip, assign)] = render(ch, kind, cfg, p, src, assign, flip)
+    ctx.count('renders', len(res))
     ctx.count('guard decisions', sum(len(r['w'].guard_log) for r in res.values()))
     ctx.count('guard refusals', sum(r['w'].refused for r in res.values()))
     ctx.count('raw reads logged', sum(len(r['w'].raw_log) for r in res.values()))
@@ -623,42 +732,49 @@ def run_case(ctx, ch, kind, cfg, gseed, record=True):
         for route, tn, nm, ok in r['w'].guard_log:
             ctx.table('guard routes', '%s %s' % (route, 'allowed' if ok else 'refused'))
     problems = []
-    # (i) token leak
-    for a in ('a', 'b'):
-        hits = tokens_in(res[a]['text'])
-        if hits:
-            problems.append('refused value in %s of assignment %s: %r'
-                            % ('exception text' if res[a]['exc'] is not None else 'output', a, hits[0]))
-            break
-    for a in ('a', 'b'):
-        hits = tokens_in(' '.join(res[a]['spy']))
-        if hits:
-            problems.append('refused value handed to a namespace callable: %r' % hits[0])
-            break
-    # (ii) non-interference
-    for x, y in (('a', 'b'), ('a', 'c')):
-        if res[x]['obs'] != res[y]['obs']:
-            problems.append('renders differing only in refused values differ (%s vs %s): %s | %s'
-                            % (x, y, U_short(res[x]['obs']), U_short(res[y]['obs'])))
-            break
-    for x, y in (('a', 'b'), ('a', 'c')):
-        if res[x]['spy'] != res[y]['spy']:
-            problems.append('call log depends on refused values (%s vs %s)' % (x, y))
-            break
+    for flip in flips:
+        tagf = '' if len(flips) == 1 else ' [refusal table %d]' % flip
+        # (i) token leak
+        for a in ('a', 'b'):
+            r = res[(flip, a)]
+            hits = tokens_in(r['text'])
+            if hits:
+                problems.append('refused value in %s of assignment %s%s: %r'
+                                % ('exception text' if r['exc'] is not None else 'output', a, tagf, hits[0]))
+                break
+        for a in ('a', 'b'):
+            hits = tokens_in(' '.join(res[(flip, a)]['spy']))
+            if hits:
+                problems.append('refused value handed to a namespace callable%s: %r' % (tagf, hits[0]))
+                break
+        # (ii) non-interference
+        for x, y in (('a', 'b'), ('a', 'c')):
+            if res[(flip, x)]['obs'] != res[(flip, y)]['obs']:
+                problems.append('renders differing only in refused values differ (%s vs %s)%s: %s | %s'
+                                % (x, y, tagf, U_short(res[(flip, x)]['obs']), U_short(res[(flip, y)]['obs'])))
+                break
+        for x, y in (('a', 'b'), ('a', 'c')):
+            if res[(flip, x)]['spy'] != res[(flip, y)]['spy']:
+                problems.append('call log depends on refused values (%s vs %s)%s' % (x, y, tagf))
+                break
     # (iii) restricted expression naming ._x must not run
-    if ch.us and kind == 'prv' and cfg != 'none' and res['a']['exc'] is None:
+    ra = res[(0, 'a')]
+    if ch.us and kind == 'prv' and cfg != 'none' and ra['exc'] is None:
         problems.append('restricted expression naming an underscore attribute ran: %r'
-                        % res['a']['text'][:80])
-    ra = res['a']
+                        % ra['text'][:80])
     w = ra['w']
-    names = set(U.aname(f, kind) for f in U.FAMS if ('@%s@' % f) in ch.src)
+    allsrc = ch.src + (ch.helper[2] if ch.helper else '')
+    names = set(U.aname(f, kind) for f in U.FAMS if ('@%s@' % f) in allsrc)
     if '@U@' in ch.src:
         names.add('absolute_url')
-    # what happened to the targeted datum
-    refused_target = any((not ok) for route, tn, nm, ok in w.guard_log
+    # what happened to the targeted datum (over both refusal tables for 'alt')
+    glog = [e for f in flips for e in res[(f, 'a')]['w'].guard_log]
+    rlog = [e for f in flips for e in res[(f, 'a')]['w'].raw_log]
+    denied_items = set().union(*[res[(f, 'a')]['w'].denied_items for f in flips])
+    refused_target = any((not ok) for route, tn, nm, ok in glog
                          if nm in names or nm is None or isinstance(nm, int) or route.endswith('item'))
-    raw_target = any(nm in names for _, _, nm, _ in w.raw_log) or \
-        any(oid in w.denied_items for oid, _, _, _ in w.raw_log)
+    raw_target = any(nm in names for _, _, nm, _ in rlog) or \
+        any(oid in denied_items for oid, _, _, _ in rlog)
     if kind == 'pub':
         live = (not names) or raw_target
         outcome = 'live' if live else 'untouched'
@@ -682,31 +798,35 @@ def run_case(ctx, ch, kind, cfg, gseed, record=True):
     else:
         outcome = 'untouched'
     nontrivial = outcome not in ('untouched',)
-    ctx.case((ch.id, kind, cfg, gseed), nontrivial)
+    ctx.case((ch.id, kind, cfg, gseed, pat), nontrivial)
+    if pat:
+        ctx.table('refused-item position patterns', '%s | %s' % (ch.fam, pat))
     ctx.table('outcome %s' % kind, '%s | %s' % (ch.id, outcome))
     ctx.table('cases per configuration', cfg)
     ctx.table('cases per family', ch.fam)
     ctx.table('channel cases', ch.id)
     if cfg != 'none':
-        ctx.table('channel guard-log entries', ch.id, len(w.guard_log))
+        ctx.table('channel guard-log entries', ch.id, len(glog))
     if problems:
         if ch.info:
             ctx.table('informational (statement silent)', '%s %s %s: differs' % (ch.id, kind, cfg))
         else:
             mech, evidence = classify(ch, kind, cfg, res)
             ctx.table('channel leaks', ch.id)
-            detail = {'observed': {a: res[a]['text'][:400] for a in res},
-                      'spy': {a: res[a]['spy'][:6] for a in res},
+            detail = {'observed': {'%d%s' % a: res[a]['text'][:400] for a in res},
+                      'spy': {'%d%s' % a: res[a]['spy'][:6] for a in res},
                       'unmediated raw reads': [list(e) for e in evidence][:8],
                       'guard log (a)': [list(e) for e in w.guard_log[:12]]}
-            ctx.violation('%s [%s/%s]: %s' % (ch.id, kind, cfg, '; '.join(problems[:3])), case, mech=mech,
-                          key=re.sub(r'[^A-Za-z0-9_.-]', '_', '%s_%s_%s' % (ch.id, kind, cfg)), detail=detail)
+            ctx.violation('%s [%s/%s%s]: %s' % (ch.id, kind, cfg, '/' + pat if pat else '',
+                                                '; '.join(problems[:3])), case, mech=mech,
+                          key=re.sub(r'[^A-Za-z0-9_.-]', '_', '%s_%s_%s_%s' % (ch.id, kind, cfg, pat or '')),
+                          detail=detail)
     elif ch.info:
         ctx.table('informational (statement silent)', '%s %s %s: equal' % (ch.id, kind, cfg))
     if record and gseed == 0 and kind != 'pub' and ch.id in ('name.client', 'in.sort', 'expr.item.map',
                                                              'in.item.skip', 'tree.branches', 'expr.attr'):
         ctx.sample({'channel': ch.id, 'kind': kind, 'cfg': cfg, 'source': src,
-                    'observed': {a: res[a]['text'][:160] for a in res},
+                    'observed': {'%d%s' % a: res[a]['text'][:160] for a in res},
                     'guard log (assignment a)': [list(e) for e in w.guard_log[:6]],
                     'outcome': outcome})
     return res
@@ -725,8 +845,8 @@ def case_list(tier, seed):
     for v in range(VARIANTS[tier]):
         gseed = 0 if v == 0 else random.Random('c05/%d/%d' % (seed, v)).getrandbits(30) + 1
         for ci, ch in enumerate(chs):
-            for kind, cfg in combos(ch):
-                out.append((gseed, ci, kind, cfg))
+            for kind, cfg, pat in combos(ch):
+                out.append((gseed, ci, kind, cfg, pat))
     return out
 
 
@@ -749,10 +869,10 @@ def run(ctx, spec):
     reach.watch('tpRenderTABLE', TreeTag.tpRenderTABLE)
     reach.start()
     chs = all_channels()
-    for i, (gseed, ci, kind, cfg) in enumerate(case_list(ctx.tier, ctx.seed)):
+    for i, (gseed, ci, kind, cfg, pat) in enumerate(case_list(ctx.tier, ctx.seed)):
         if i % ctx.nshards != ctx.shard:
             continue
-        run_case(ctx, chs[ci], kind, cfg, gseed)
+        run_case(ctx, chs[ci], kind, cfg, gseed, pat)
     reach.stop()
     reach.report(ctx)
 
@@ -785,7 +905,7 @@ def finish(agg):
     # every guard-refused variant must have touched its datum somewhere (the _private variants
     # are covered by the public control of the same channel: a refusal before any read leaves
     # no event to count)
-    for kind in ('den',):
+    for kind in ('den', 'alt'):
         seen = {}
         for k, n in t.get('outcome ' + kind, {}).items():
             cid, outcome = k.split(' | ')
@@ -817,6 +937,6 @@ def replay(ctx, rep):
     c = rep['case']
     for ch in all_channels():
         if ch.id == c['ch']:
-            run_case(ctx, ch, c['kind'], c['cfg'], c['gseed'], record=False)
+            run_case(ctx, ch, c['kind'], c['cfg'], c['gseed'], c.get('pat'), record=False)
             return
     ctx.inconclusive('unknown channel in replay: %r' % (c.get('ch'),))
